@@ -814,8 +814,14 @@ fn c05(args: &Args, rep: &mut Report, w: &Watch) {
                     if ab != ab2 {
                         rep.violation("same-question-answered-differently-on-one-context", "history-independence", format!("{}\nS<:T first = {}, asked again on the same context = {}", case_show(&c), ab, ab2), case_json(&c));
                     } else if !attributed {
+                        // which question changed its answer, and does its right-hand side contain an
+                        // intersection (the recorded split of a right-hand intersection across the two
+                        // sides of the diagram)?
+                        let has_and = |t: &Runtype| has_kind(t, &|k| matches!(k, RuntypeKind::AllOf(_))) || c.defs.iter().any(|d| has_kind(&d.schema, &|k| matches!(k, RuntypeKind::AllOf(_))));
+                        let right_and = (ab != ab_fresh && has_and(&c.t)) || (ba != ba_fresh && has_and(&c.s));
+                        let only_such = (ab == ab_fresh || has_and(&c.t)) && (ba == ba_fresh || has_and(&c.s));
                         rep.violation(
-                            "decision-depends-on-conversion-order|unattributed",
+                            if right_and && only_such { "decision-depends-on-conversion-order|cause:right-intersection" } else { "decision-depends-on-conversion-order|unattributed" },
                             "history-independence",
                             format!("{}\nS<:T with S converted first = {}, with T converted first = {}; T<:S with S converted first = {}, with T converted first = {}", case_show(&c), ab, ab_fresh, ba, ba_fresh),
                             case_json(&c),
